@@ -83,6 +83,13 @@ CHECKS["C19"] = dict(
     design="§3 C19, §8",
 )
 
+CHECKS["C15"] = dict(
+    technique="runtime monitoring: differential runs of the real llw in fresh processes (different directories / environments) compared byte for byte, and metamorphic oracle (permuted top-level declarations) on diagnostics, analysis sets (matched through the harness's model) and on the behaviour of both generated parsers compiled into one arena",
+    text="Every grammar text of the workload is run three times through llw in fresh processes; outputs, diagnostics and exit status must be identical. Accepted model grammars are permuted at declaration level; warnings (as a multiset), every first/follow/predict/recovery set of every node and the tree / diagnostics / callback trace of the two generated parsers on the campaign inputs must be equal.",
+    note="hash-seed dependence is observed through fresh processes (std's RandomState differs per process); the environment variations are a sample; parser behaviour is compared on generated inputs only",
+    design="§3 C15, §8",
+)
+
 NOT_YET = "check not built yet in this round; design in DESIGN.md §3, build order §7"
 
 
